@@ -100,6 +100,11 @@ TARGETS += [
          selfattrs=[("version", "bytes"), ("inputs", "list:txin"), ("outputs", "list:txout"), ("witnesses", "list:witness"), ("locktime", "bytes"),
                     ("has_segwit", "bool")],
          ret="int", tiefile="tx_ids", fallback="fun v i o w l hs => of_option (Tx.get_size (Tx.Build_tx v i o l hs w))"),
+    dict(coq="src_segwit_digest", file="bitcoinutils/transactions.py", qual="Transaction.get_transaction_segwit_digest", sha=True,
+         params=[("txin_index", "int"), ("script", "script"), ("amount", "int"), ("sighash", "int")],
+         selfattrs=[("version", "bytes"), ("inputs", "list:txin"), ("outputs", "list:txout"), ("locktime", "bytes")],
+         ret="bytes", tiefile="segwit_digest",
+         fallback="fun sha256 i sc am ht v ins outs l => if i <? 0 then Raise else of_option (Sighash.segwit_digest sha256 (Tx.Build_tx v ins outs l false []) (Z.to_nat i) sc am ht)"),
 ]
 
 COQTY = {"int": "Z", "bytes": "bytes", "hexbytes": "bytes", "bool": "bool", "int*int": "(Z * Z)", "unit": "unit",
@@ -230,6 +235,12 @@ class Tr:
             op = type(e.op)
             if ta == "bytes" and tb == "bytes" and op is ast.Add:
                 return pre, "(%s ++ %s)" % (a, b), "bytes"
+            if op is ast.Mult and {ta, tb} == {"bytes", "int"}:
+                bexp, nexp = (e.left, e.right) if ta == "bytes" else (e.right, e.left)
+                if (isinstance(bexp, ast.Constant) and isinstance(bexp.value, bytes) and len(bexp.value) == 1
+                        and isinstance(nexp, ast.Constant) and isinstance(nexp.value, int) and 0 <= nexp.value <= 4096):
+                    return pre, "(repeat %d %d)" % (bexp.value[0], nexp.value), "bytes"
+                raise Unsupported("bytes repetition")
             if ta == "int" and tb == "int":
                 tot = {ast.Add: "+", ast.Sub: "-", ast.Mult: "*"}
                 if op in tot:
@@ -326,6 +337,12 @@ class Tr:
             return pc, "(if %s then %s else %s)" % (self.truthy(c, tc), a, b), ta
         if isinstance(e, ast.Subscript):
             p, a, ta = self.expr(e.value)
+            if ta.startswith("list:") and not isinstance(e.slice, ast.Slice):
+                q, i_, ti = self.expr(e.slice)
+                if ti != "int": raise Unsupported("index type")
+                ety = ta[len("list:"):]
+                t = self.fresh()
+                return p + q + [("opt", t, "py_nth %s %s" % (a, i_))], t, ("bytes" if ety == "hexbytes" else ety)
             if ta != "bytes":
                 # struct.unpack(...)[0]
                 if ta == "unpacked" and isinstance(e.slice, ast.Constant) and e.slice.value == 0:
@@ -611,7 +628,7 @@ class Tr:
             else:
                 raise Unsupported("assignment target")
             pre, a, ta = self.expr(val)
-            if ta not in ("int", "bytes", "bool", "hexint"):
+            if ta not in ("int", "bytes", "bool", "hexint") and ta not in OBJ:
                 raise Unsupported("assignment of %s" % ta)
             saved = dict(self.env)
             ident = self.bind(key, a, ta)
